@@ -128,6 +128,16 @@ structure PyBlock where
   calleeRetsubBlocks : Nat           -- len(block.called_subroutine.retsub_blocks)
 deriving Inhabited
 
+/-- what the path search of detectors/utils.py reads of the function's graph (blocks are named by their keys) -/
+structure PyGraph where
+  validated : Nat → Bool          -- validated_in_block(bb, function, checks_field)
+  isLeaf : Nat → Bool             -- leaf_block_global(bb)
+  isCallsub : Nat → Bool          -- bb.is_callsub_block
+  isRetsub : Nat → Bool           -- bb.is_retsub_block
+  calledSub : Nat → String        -- bb.called_subroutine (by name)
+  retPoint : Nat → Option Nat     -- bb.sub_return_point
+  nextGlobal : Nat → List Nat     -- next_blocks_global(function, bb)
+
 /-- a dictionary with block keys that is only written and looked up: `d[k] = v` is function update -/
 def dictSet {V : Type} (d : Nat → Option V) (k : Nat) (v : V) : Nat → Option V :=
   fun k' => if k' = k then some v else d k'
